@@ -64,6 +64,9 @@ type Node struct {
 // UnmarshalJSON is just an adapter to json.Unmarshaler.
 // If you want better performance, use Searcher.GetByPath() directly
 func (self *Node) UnmarshalJSON(data []byte) (err error) {
+	if len(data) == 0 {
+		return types.ERR_EOF
+	}
 	*self = newRawNode(rt.Mem2Str(data), switchRawType(data[0]), false)
 	return nil
 }
